@@ -214,6 +214,10 @@ func GetNode(children []*Node, path string) (*Node, bool) {
 			continue
 		}
 		if len(node.Children) == 0 {
+			// a file has nothing beneath it: 'a/b' is not found if 'a' is a file
+			if len(pathSplit) > 1 {
+				return nil, false
+			}
 			return node, true
 		}
 		if len(pathSplit) > 1 {
